@@ -2,6 +2,7 @@ import ExprModel.Proofs.RefineTop
 import ExprModel.Proofs.RefineLoopAll
 import ExprModel.Proofs.RefineExample
 import ExprModel.Proofs.RefineFloats
+import ExprModel.Api.Pipeline
 /-
 C01 — Compiled evaluation conforms to the language definition.
 
@@ -216,5 +217,32 @@ example (c : Cfg) : ∃ N, ∀ fuel, N ≤ fuel →
     RunAgrees (run c (progOf exCompiledA) fuel) (Spec.run (specOf c) none exTreeA) :=
   run_conforms_stageA {} exTreeA exCompiledA (fun _ => False) c exA_compiles (fun _ _ h => h.elim) exA_floats
     exA_good exA_fits (fun h => by cases h)
+
+/-! ### `expr.Eval`: source text to result through every model stage
+
+`Api.evalSource` = lexer model, parser model, `compileProgram {}` (no types, no optimiser), `run`.  Whenever the
+text lexes and parses (to `n`) and `n` compiles, evaluating the source is evaluating `n` by the language
+definition — under the exclusions of `run_conforms_checked`, now all but `SmallColl` decidable on the parsed
+tree / compiled program. -/
+
+theorem eval_source_conforms (F : Api.Front) (c : Cfg) (src : String) (ts : List Token) (n : Node) (cp : Compiled)
+    (hlex : Lex.lex F.cc F.tables src = .ok ts) (hparse : Parser.parse F.pcfg ts = .ok n)
+    (hcomp : compileProgram {} n = .ok cp) (hfl : floatsOK n = true) (hfit : FitsU16 cp.code)
+    (hg : Good (SmallColl c) n) :
+    ∃ N, ∀ fuel, N ≤ fuel → ∃ res final, Api.evalSource F c fuel src = .ran res final ∧
+      RunAgrees (res, final) (Spec.run (specOf c) none n) := by
+  obtain ⟨N, hN⟩ := run_conforms_checked {} n cp c hcomp hfl hfit (fun h => by cases h) hg
+  refine ⟨N, fun fuel hf => ⟨_, _, ?_, hN fuel hf⟩⟩
+  simp only [Api.evalSource, hlex, hparse, hcomp]
+  rfl
+
+/-- the failing stages are reported as such, in order -/
+theorem eval_source_stages (F : Api.Front) (c : Cfg) (fuel : Nat) (src : String) :
+    (∀ e, Lex.lex F.cc F.tables src = .error e → Api.evalSource F c fuel src = .lexError e) ∧
+    (∀ ts e, Lex.lex F.cc F.tables src = .ok ts → Parser.parse F.pcfg ts = .error e →
+      Api.evalSource F c fuel src = .parseError e) ∧
+    (∀ ts n e, Lex.lex F.cc F.tables src = .ok ts → Parser.parse F.pcfg ts = .ok n → compileProgram {} n = .error e →
+      Api.evalSource F c fuel src = .compileError e) := by
+  refine ⟨fun e h => ?_, fun ts e h1 h2 => ?_, fun ts n e h1 h2 h3 => ?_⟩ <;> simp only [Api.evalSource, *]
 
 end ExprModel.C01
